@@ -118,11 +118,11 @@ type World struct {
 	// that return a value of exactly that interface type; Providers counts them.
 	ProvideIfaceInputs bool
 	Providers          int
-	genArgs map[int]argmapper.Arg // ConverterGen options by generator id, created once per world
+	genArgs            map[int]argmapper.Arg // ConverterGen options by generator id, created once per world
 	// TargetDefaults: further default options given to NewFunc when Setup
 	// creates the target (e.g. Redefine filters supplied as defaults).
 	TargetDefaults []argmapper.Arg
-	BodyHook       func(fs *FuncSpec)   // optional: called at the start of every body (outside the lock)
+	BodyHook       func(fs *FuncSpec) // optional: called at the start of every body (outside the lock)
 	// LastOpts is the option slice (with its spare capacity) the latest
 	// Realize / RealizeViaList handed to NewFunc: the caller's own slice, whose
 	// spare capacity the caller may go on using.
@@ -130,7 +130,7 @@ type World struct {
 	// FailWith (optional) makes the error value a failing body returns, in
 	// place of a *FailErr.
 	FailWith func(fs *FuncSpec, exec int) error
-	OpTagOf        func() (gid, op int) // optional: goroutine/op attribution
+	OpTagOf  func() (gid, op int) // optional: goroutine/op attribution
 }
 
 type retainedArg struct {
